@@ -81,6 +81,7 @@ fn main() {
             .find(|l| l.starts_with("CASE"))
             .and_then(|l| l.split_whitespace().find_map(|t| t.strip_prefix("family=").map(|s| s.to_string())))
             .unwrap_or_else(|| if prop == "C17" { "table".into() } else { "wire".into() });
+        table::PARTIAL.with(|p| p.borrow_mut().clear());
         let body = catch_unwind(AssertUnwindSafe(|| match prop.as_str() {
             "C17" => {
                 let mut st = table::Stats::new();
@@ -96,6 +97,9 @@ fn main() {
                 }
             }
             Err(p) => {
+                for l in table::PARTIAL.with(|x| std::mem::take(&mut *x.borrow_mut())) {
+                    writeln!(w, "{l}").unwrap();
+                }
                 writeln!(w, "OBS panic {}", panic_class(&p)).unwrap();
             }
         }
@@ -150,6 +154,7 @@ fn main() {
             },
         };
         *fam_count.entry(family.to_string()).or_insert(0) += 1;
+        table::PARTIAL.with(|p| p.borrow_mut().clear());
         let body = catch_unwind(AssertUnwindSafe(|| match family {
             "table" => table::gen_table_case(&mut crng, &mut tstats, 40, false, false),
             "tablez" => table::gen_table_case(&mut crng, &mut tstats, 40, false, true),
@@ -167,6 +172,9 @@ fn main() {
             }
             Err(p) => {
                 panics += 1;
+                for l in table::PARTIAL.with(|x| std::mem::take(&mut *x.borrow_mut())) {
+                    writeln!(w, "{l}").unwrap();
+                }
                 writeln!(w, "OBS panic {}", panic_class(&p)).unwrap();
             }
         }
